@@ -604,7 +604,13 @@ static Result run_pot(const json &c) {
   bool allnz = true;
   for (double v : P.lam)
     if (v == 0) allnz = false;
-  r.nontrivial = allnz;
+  // non-trivial: LJ forms = all parameters non-zero; CBSPL (8..40 knots, the last four usually zero by construction) = at least
+  // 80 % of the knot values non-zero
+  {
+    size_t nz = 0;
+    for (double v : P.lam) nz += v != 0;
+    r.nontrivial = P.cb ? (10 * nz >= 8 * (P.lam.size() - 4)) : allnz;
+  }
   if (P.cb) {
     // own computation of the number of excluded knots: knots k*dr <= min are excluded, plus one
     if (c.value("min_on_knot", false)) r.cls("min-on-knot");
@@ -955,9 +961,6 @@ static json gen_spline() {
   c["ev"] = gen_eval(x);
   return c;
 }
-
-// a sanitizer death must not look like "failures reported" (exit 1) to the driver
-extern "C" const char *__asan_default_options() { return "exitcode=77"; }
 
 int main(int argc, char **argv) {
   std::vector<Sub> subs;
